@@ -12,7 +12,8 @@ package pubsub
 // Put: the message becomes retrievable under its id and is appended to the newest slot; older
 // slots and all other messages are untouched.
 //@ func (*MessageCache).Put
-//@   property C17
+//@   property C17 C12
+//@   safe
 //@   dynpure msgID
 //@   requires rep: mcRep(mc) && msg != nil
 //@   modifies map(mc.msgs), elems(mc.history), allelems(CacheEntry)
@@ -24,13 +25,15 @@ package pubsub
 //@   ensures rep: mcRep(mc) && len(mc.history) == old(len(mc.history))
 
 //@ func (*MessageCache).Get
-//@   property C17
+//@   property C17 C12
+//@   safe
 //@   modifies nothing
 //@   ensures lookup: result1 == (mid in mc.msgs) && (result1 ==> result0 == mc.msgs[mid])
 
 // GetForPeer: the returned count is the number of requests for (mid, p) so far, this one included.
 //@ func (*MessageCache).GetForPeer
-//@   property C17
+//@   property C17 C12
+//@   safe
 //@   requires rep: mcRep(mc)
 //@   modifies map(mc.peertx), maps(mc.peertx)
 //@   ensures unknown: !old(mid in mc.msgs) ==> !result2 && result0 == nil && result1 == 0 &&
@@ -41,7 +44,8 @@ package pubsub
 
 // GetGossipIDs: only ids of the first `gossip` slots (the advertising window) with that topic.
 //@ func (*MessageCache).GetGossipIDs
-//@   property C17
+//@   property C17 C12
+//@   safe
 //@   requires rep: mcRep(mc)
 //@   modifies nothing
 //@   loop 1 invariant local-result: arr(mids) == nil || fresh(mids)
@@ -57,7 +61,8 @@ package pubsub
 // entries of the oldest slot are forgotten: removed from msgs and from the per-peer
 // transmission counters; nothing else is removed.
 //@ func (*MessageCache).Shift
-//@   property C17
+//@   property C17 C12
+//@   safe
 //@   requires rep: mcRep(mc)
 //@   modifies map(mc.msgs), map(mc.peertx), elems(mc.history)
 //@   loop 1 invariant forgetting: (forall m string :: m in mc.msgs ==> old(m in mc.msgs) && mc.msgs[m] == old(mc.msgs[m])) &&
